@@ -1,8 +1,8 @@
 From Coq Require Extraction ExtrOcamlBasic.
 From GV Require Import Base.Grammar LR.Automaton LR.Validator Repair.Semantics Repair.Spec Repair.Search
-  C06.Model C06.Mirror.
+  C06.Model C06.Mirror C06.CompleteValidatedRank.
 Extraction Language OCaml.
-Extraction "model.ml" mkGrammar mkDump of_dump wf_grammar validS single_candidate lhs dump_no_shift_eof
-  run_recover valid_repair srun scost far shift_returns strip
-  ranked_successes simplify all_min_repairs search_mirror
-  moves allowed mcost sstep done_at next_k is_del dijkstra.
+Extraction "model.ml" mkGrammar mkDump of_dump wf_grammar validS validC validE single_candidate lhs dump_no_shift_eof
+  run_recover valid_repair srun scost far far_orig shift_returns strip
+  ranked_successes ranked_successes_orig simplify all_min_repairs search_mirror search_mirror_orig
+  moves allowed mcost sstep done_at next_k is_del dijkstra rank_fuel_ok.
